@@ -1,5 +1,5 @@
 #!/bin/sh
-cd "$(dirname "$0")" 2>/dev/null
+cd "$(dirname "$0")/.." 2>/dev/null
 ./setup.sh >/dev/null 2>&1
 for c in C02 C03 C04 C05 C06 C07 C08 C09 C10 C11 C12 C13 C14 C15 C16 C17 C18 C19 C20 C01; do
   s=$(date +%s)
